@@ -54,7 +54,7 @@ def check_counts(scn, lines, info) -> list[str]:
     """per calibrate call: ran exactly min(n, first batch whose running min rounds to zero)"""
     errs = []
     cal = info["cal"]
-    if any(o[0] in ("R", "SS", "SCH") for o in scn.ops):
+    if any(o[0] == "R" for o in scn.ops):      # (after a restore `cal` is another object: judged by the model comparison only)
         return errs
     losses = np.asarray(cal.losses_samp, dtype=float)
     bn = np.asarray(cal.batch_num_samp)
@@ -99,7 +99,7 @@ def run(chk: Check):
     chk.proof_stage(PROP_FILE)
     n = 150 if chk.tier == "quick" else 2500
     for i in range(n):
-        scn = ch.gen_scn(rng, sched="rr", conv=rng.random() < 0.85, max_batches=rng.randint(2, 12))
+        scn = ch.gen_scn(rng, sched="rr", conv=rng.random() < 0.85, set_ops=(i % 3 == 1), max_batches=rng.randint(2, 12))
         scn.verbose = rng.random() < 0.5
         if i % 5 == 2 and scn.conv is not None:
             # a nearly exhausted space: the samplers keep proposing the same few vectors (the history is full of repeated parameter vectors),
@@ -115,6 +115,10 @@ def run(chk: Check):
         if scn.folder and rng.random() < 0.6:
             scn.ops = [o for o in scn.ops if o[0] == "C"][:3]
             scn.ops.append(("R",))
+        elif i % 3 == 1 and any(o[0] in ("SS", "SCH") for o in scn.ops):
+            # the line-up / the scheduler object is replaced between calls: the stop rule looks at the calibrator's history, whoever schedules
+            scn.ops = [o for o in scn.ops if o[0] in ("C", "SS", "SCH")]
+            chk.count("scheduler_or_samplers_replaced_between_calls")
         else:
             scn.ops = [o for o in scn.ops if o[0] == "C"]
         lines, info = run_one(chk, scn)
@@ -142,6 +146,55 @@ def run(chk: Check):
         if not ok:
             chk.disagree("Calibrator.calibrate (early stop) != BlackIt.Calibrator.calLoop",
                          {"scenario": scn_json(scn), "op_index": k, "fields": ch.diff_fields(a, b) if k is not None and k >= 0 else None, "impl": a[:500], "model": b[:500]})
+    shared_scheduler(chk, rng)
+
+
+def shared_scheduler(chk: Check, rng):
+    """one scheduler object handed to two calibrators one after the other (scheduler=...): the second calibration has its own, empty history
+    and stops exactly when ITS smallest loss rounds to zero — not because of anything the scheduler object went through before"""
+    import contextlib, io
+    from black_it.calibrator import Calibrator
+    from black_it.loss_functions.minkowski import MinkowskiLoss
+    from black_it.samplers.halton import HaltonSampler
+    from black_it.samplers.random_uniform import RandomUniformSampler
+    from black_it.schedulers.round_robin import RoundRobinScheduler
+
+    for it in range(6 if chk.tier == "quick" else 80):
+        p = rng.randint(1, 6); h = 0.5 * 10.0 ** (-p)
+        bs = rng.randint(1, 3)
+        zero_at = rng.randint(1, 3)                       # batch (1-based) of the first run whose loss rounds to zero
+        n2 = rng.randint(2, 5)
+        second_zero_at = rng.choice([None, None, n2, rng.randint(1, n2)])
+        script1 = [1.0 + k for k in range(zero_at - 1)] + [rng.choice([0.0, h / 3, -h / 3])] + [5.0] * 4
+        script2 = [0.9 + 0.01 * k for k in range(n2 + 1)]
+        if second_zero_at is not None:
+            script2[second_zero_at - 1] = rng.choice([0.0, h / 2.5])
+        state = {"k": 0, "script": script1}
+
+        def model(theta, N, seed, _st=state, _bs=bs):  # noqa: N803
+            v = _st["script"][min(_st["k"] // _bs, len(_st["script"]) - 1)]
+            _st["k"] += 1
+            return np.full((N, 1), v)
+        sched = RoundRobinScheduler([HaltonSampler(batch_size=bs), RandomUniformSampler(batch_size=bs)])
+        kw = dict(loss_function=MinkowskiLoss(p=1), real_data=np.zeros((1, 1)), model=model, parameters_bounds=[[0.0, 0.0], [1.0, 1.0]], parameters_precision=[0.001, 0.001],
+                  ensemble_size=1, convergence_precision=p, verbose=bool(it % 2), saving_folder=None, n_jobs=1)
+        with contextlib.redirect_stdout(io.StringIO()), warnings.catch_warnings():
+            warnings.simplefilter("ignore")
+            c1 = Calibrator(scheduler=sched, random_state=rng.randrange(10 ** 6), **kw)
+            c1.calibrate(zero_at + 2)
+            state.update(k=0, script=script2)
+            c2 = Calibrator(scheduler=sched, random_state=rng.randrange(10 ** 6), **kw)
+            c2.calibrate(n2)
+        want1, want2 = zero_at, (second_zero_at if second_zero_at is not None else n2)
+        chk.case(["shared-scheduler", p, bs, zero_at, n2, second_zero_at], True,
+                 {"precision": p, "first_run_batches": int(c1.current_batch_index), "second_run_batches": int(c2.current_batch_index), "second_run_losses": np.asarray(c2.losses_samp, dtype=float).tolist()[:6]})
+        chk.count("scheduler_object_shared_by_two_calibrators")
+        case = {"case": {"kind": "shared_scheduler", "precision": p, "batch_size": bs, "script1": script1, "script2": script2, "n2": n2}}
+        if int(c1.current_batch_index) != want1:
+            chk.fail(f"first calibration ran {c1.current_batch_index} batches, its smallest loss rounds to zero at batch {want1} (precision {p})", case)
+        if int(c2.current_batch_index) != want2:
+            chk.fail(f"a calibration given a scheduler object that another calibration used before ran {c2.current_batch_index} of {n2} batches with losses "
+                     f"{np.asarray(c2.losses_samp, dtype=float).tolist()[:6]}; its own smallest loss rounds to zero at batch {second_zero_at} (precision {p}): expected {want2}", case)
 
 
 def replay(path: Path) -> int:
